@@ -41,7 +41,7 @@ RULE = (
 ASSUMPTIONS = ["an alias registered again replaces the earlier registration for evaluations that are not already stored"]
 FLOORS = {"histories": (1500, 12000), "uncached_evaluations_exact": (4000, 35000), "cached_evaluations_checked": (4000, 35000),
           "selected_registered_impl": (1000, 10000), "late_registrations_effective": (800, 6000), "interface_member_evaluations": (15000, 50000),
-          "rejected_implementations": (2000, 3000), "reregistrations": (400, 3000), "derivative_dispatch_changes": (150, 1200), "self_referential_evaluations": (2000, 16000)}
+          "rejected_implementations": (2000, 3000), "reregistrations": (400, 3000), "derivative_dispatch_changes": (150, 1200), "self_referential_evaluations": (2000, 16000), "datasets_copied_mid_history": (800, 6000)}
 SHARDS_QUICK = 4
 ALIASES = ["x", "y", "z", 0, 1, None, "a", {"tuple": ["ds1", "default"]}, {"tuple": ["t", 1]}]
 
@@ -128,6 +128,9 @@ def gen_history(r):
             if r.random() < 0.06:
                 # a derivative receives a dispatch of its own: the dataset it derives from is not affected
                 ops.append(["derived_set_dispatch", did, r.choice(["E", "N1"])])
+            if r.random() < 0.12:
+                # the dataset is copied (copy / deepcopy; the copy is evaluated once and dropped): the ORIGINAL is what it was
+                ops.append(["transport", r.choice(list(datasets)), r.choice(["copy", "deepcopy"]), o])
     return {"datasets": datasets, "ops": ops, "reregistrations": reregistered[0]}
 
 
@@ -156,24 +159,35 @@ def run_history(ctx, H, tag):
             detached.add(op[1])
             ctx.count("derivative_dispatch_changes")
             continue
+        if op[0] == "transport":
+            clone = getattr(copy, op[2])(G.dataset(op[1]))
+            with G.log.shadowed(), labrea.cache.disabled():  # (a shallow copy shares the store: nothing is to be stored on its behalf)
+                observe(clone.evaluate, copy.deepcopy(op[3]))
+            del clone
+            ctx.count("datasets_copied_mid_history")
+            continue
         if op[0] == "set_dispatch":
             G.dataset(op[1]).set_dispatch(Option(op[2]))
             program["datasets"][op[1]]["dispatch"] = op[2]
             continue
         if op[0] == "register":
             _, did, alias, impl, stacked = op
-            if stacked and isinstance(alias, list) and impl.get("args") is not None:
-                # stacked decorators: @d.overload(a1) @d.overload(a2) def f
-                tagname = impl["tag"]
-                body = G._body(did, tagname, impl.get("args", []))
-                obj = G.dataset(did)
-                from ..ref import alias_value
+            try:
+                if stacked and isinstance(alias, list) and impl.get("args") is not None:
+                    # stacked decorators: @d.overload(a1) @d.overload(a2) def f
+                    tagname = impl["tag"]
+                    body = G._body(did, tagname, impl.get("args", []))
+                    obj = G.dataset(did)
+                    from ..ref import alias_value
 
-                inner = obj.overload(alias_value(alias[1]))(body)
-                obj.overload(alias_value(alias[0]))(inner)
-                G.dataset_ids[id(inner)] = f"{did}/{tagname}"
-            else:
-                G.register(did, alias, impl)
+                    inner = obj.overload(alias_value(alias[1]))(body)
+                    obj.overload(alias_value(alias[0]))(inner)
+                    G.dataset_ids[id(inner)] = f"{did}/{tagname}"
+                else:
+                    G.register(did, alias, impl)
+            except Exception as e:  # noqa: BLE001  (a legal registration: aliases are hashable, implementations evaluatable)
+                ctx.violation("registration-raised", f"step {i}: registering {alias!r} on dataset {did} raised {type(e).__name__}: {e}", {**W, "step": i})
+                return
             program["datasets"][did].setdefault("overloads", []).append([alias, impl])
             if G.log.events and any(e[1] == "body" for e in G.log.events[-1:]) and False:
                 pass
